@@ -340,6 +340,9 @@ func init() {
 			lv := flagx.RunLenValue(def, core.Pkgs("./lapack/gonum", "./blas/gonum"))
 			lv.Floor("lengths_of_slice_parameters", 400)
 			res.Merge(lv)
+			zl := matargs.RunZeroLen(def)
+			zl.Floor("row_range_views", 2)
+			res.Merge(zl)
 			wq := flagx.RunWorkQuery(def, core.Pkgs("./lapack/gonum"))
 			wq.Floor("work_length_checks_in_query_routines", 20)
 			res.Merge(wq)
@@ -985,6 +988,8 @@ func dump(argv []string) {
 		res = stride.RunWholeCopy(def, core.Pkgs(argv[1:]...))
 	case "resetcaps":
 		res = zeroed.RunResetCaps(def)
+	case "zerolen":
+		res = matargs.RunZeroLen(def)
 	case "workquery":
 		res = flagx.RunWorkQuery(def, core.Pkgs(argv[1:]...))
 	case "betascale":
